@@ -28,11 +28,21 @@ build() {
     echo "BUILD-FAILED (see $BUILD/build.log)"; tail -n 30 $BUILD/build.log; return 2
   fi
 }
+# C20: race-detector build against an INSTRUMENTED scratch copy of the tree under test (yield points inside the
+# library's own code, inserted by sim/cmd/instr). The copy lives outside /repo and /verif and is removed after the build.
 build_race() {
   local out=$BUILD/sim-race
-  if ! $GO build $MODFLAG -race -o "$out" ./cmd/sim 2>$BUILD/build-race.log; then
-    echo "BUILD-FAILED (see $BUILD/build-race.log)"; tail -n 30 $BUILD/build-race.log; return 2
+  local scr="/var/tmp/verif-c20-src-$$"
+  rm -rf "$scr"; mkdir -p "$scr" || return 2
+  if ! rsync -a --exclude .git "$REPO"/ "$scr"/ 2>$BUILD/build-race.log; then echo "BUILD-FAILED (copy)"; rm -rf "$scr"; return 2; fi
+  if ! $GO build -o "$BUILD/instr" ./cmd/instr 2>>$BUILD/build-race.log || ! "$BUILD/instr" "$scr" reader verifier mobile cms passiveauth document >>$BUILD/build-race.log 2>&1; then
+    echo "BUILD-FAILED (instrumenter; see $BUILD/build-race.log)"; tail -n 20 $BUILD/build-race.log; rm -rf "$scr"; return 2
   fi
+  sed "s|=> /repo|=> $scr|" go.mod > "$BUILD/go.c20.mod"; cp go.sum "$BUILD/go.c20.sum"
+  if ! $GO build -modfile="$BUILD/go.c20.mod" -race -tags vyinstr -o "$out" ./cmd/sim 2>>$BUILD/build-race.log; then
+    echo "BUILD-FAILED (see $BUILD/build-race.log)"; tail -n 30 $BUILD/build-race.log; rm -rf "$scr"; return 2
+  fi
+  rm -rf "$scr"
 }
 needs_race() {
   case "$1" in C20) return 0 ;; esac
